@@ -17,6 +17,7 @@ import (
 	"github.com/btcsuite/btcd/btcec/v2/ecdsa"
 	"github.com/btcsuite/btcd/btcec/v2/schnorr"
 	"github.com/btcsuite/btcd/btcec/v2/schnorr/musig2"
+	"github.com/btcsuite/btcd/chainhash/v2"
 	"verifharness/core"
 )
 
@@ -49,6 +50,10 @@ func (P) Facts() []core.Fact {
 		{Name: "tagNonceGen", Value: string(musig2.NonceGenTag)},
 		{Name: "tagNonceBlind", Value: string(musig2.NonceBlindTag)},
 		{Name: "tagChallenge", Value: string(musig2.ChallengeHashTag)},
+		{Name: "tagBIP340Challenge", Value: string(chainhash.TagBIP0340Challenge)},
+		{Name: "tagBIP340Aux", Value: string(chainhash.TagBIP0340Aux)},
+		{Name: "tagBIP340Nonce", Value: string(chainhash.TagBIP0340Nonce)},
+		{Name: "tagTapTweak", Value: string(chainhash.TagTapTweak)},
 	}
 }
 
